@@ -74,6 +74,7 @@ func (f *findings) add(sig, format string, args ...any) {
 func (cs *caseSpec) command() *remoteexecution.Command {
 	c := &remoteexecution.Command{
 		Arguments:             []string{"/bin/produce"},
+		EnvironmentVariables:  []*remoteexecution.Command_EnvironmentVariable{{Name: "LANG", Value: "C"}},
 		WorkingDirectory:      cs.WorkingDirectory,
 		OutputPaths:           cs.OutputPaths,
 		OutputDirectoryFormat: cs.Format,
@@ -268,7 +269,9 @@ func checkResult(cs *caseSpec, df digest.Function, ar *remoteexecution.ActionRes
 type backend interface {
 	name() string
 	// open returns the build directory positioned at an empty input root.
-	open(h *harness, cas *outkit.Store) (root builder.BuildDirectory, ops rootOps, cleanup func())
+	// Every operation the worker code performs on it is a numbered
+	// position of plan (see outkit.FaultyBuildDirectory).
+	open(h *harness, cas *outkit.Store, plan *outkit.Plan) (root builder.BuildDirectory, ops rootOps, cleanup func())
 }
 
 // rootOps lets the harness act as "the action" and as an observer on the
@@ -277,6 +280,7 @@ type backend interface {
 type rootOps interface {
 	materialize(n *outkit.Node) error
 	snapshot() (*outkit.Node, error)
+	remove(loc []string) error
 }
 
 type naiveBackend struct{}
@@ -287,8 +291,11 @@ type osOps struct{ abs string }
 
 func (o osOps) materialize(n *outkit.Node) error { return outkit.Materialize(o.abs, n) }
 func (o osOps) snapshot() (*outkit.Node, error)  { return outkit.Snapshot(o.abs) }
+func (o osOps) remove(loc []string) error {
+	return os.RemoveAll(filepath.Join(append([]string{o.abs}, loc...)...))
+}
 
-func (naiveBackend) open(h *harness, cas *outkit.Store) (builder.BuildDirectory, rootOps, func()) {
+func (naiveBackend) open(h *harness, cas *outkit.Store, plan *outkit.Plan) (builder.BuildDirectory, rootOps, func()) {
 	abs := filepath.Join(h.tmp, fmt.Sprintf("d%d", h.seq.Add(1)))
 	if err := os.Mkdir(abs, 0o777); err != nil {
 		panic(err)
@@ -297,10 +304,14 @@ func (naiveBackend) open(h *harness, cas *outkit.Store) (builder.BuildDirectory,
 	if err != nil {
 		panic(err)
 	}
-	bd := builder.NewNaiveBuildDirectory(local, outkit.NewDirectoryFetcher(), outkit.FileFetcher{CAS: cas}, semaphore.NewWeighted(1), cas)
-	return bd, osOps{abs}, func() {
+	handles := outkit.NewHandleStats()
+	bd := builder.NewNaiveBuildDirectory(outkit.NewCountingDirectory(local, handles).WithFaults(plan), outkit.NewDirectoryFetcher(), outkit.FileFetcher{CAS: cas}, semaphore.NewWeighted(1), cas)
+	return outkit.NewFaultyBuildDirectory(bd, plan, &outkit.FaultyDirStats{}), osOps{abs}, func() {
 		bd.Close()
 		os.RemoveAll(abs)
+		if never, _ := handles.Problems(); len(never) > 0 {
+			h.r.Count("file-handles-left-open-after-faulted-upload", len(never))
+		}
 	}
 }
 
@@ -314,13 +325,43 @@ func (h *harness) judge(cs *caseSpec, driver string, f *findings, extra map[stri
 	}
 }
 
-func (h *harness) runDirect(cs *caseSpec, be backend, df digest.Function) {
+// runInfo describes the numbered operations of one run.
+type runInfo struct {
+	Counted   int
+	Triggered bool
+	Hit       outkit.Call
+	Calls     []outkit.Call
+}
+
+// rareOps are operations that occur once or twice per run; their positions
+// are always part of a sampled fault enumeration.
+var rareOps = map[string]bool{
+	"dir-MergeDirectoryContents": true, "dir-RemoveAll": true, "dir-EnterBuildDirectory": true,
+	"cas-FindMissing": true, "ac-Put": true, "file-Len": true, "dir-Readlink": true,
+	"dir-EnterParentPopulatableDirectory": true, "dir-Lstat": true,
+}
+
+func faultSituation(hit outkit.Call) string {
+	return "fault:" + hit.Store + "-" + hit.Op
+}
+
+// runDirect drives NewOutputHierarchy / CreateParentDirectories /
+// UploadOutputs over a backend. faultAt > 0 makes the faultAt-th operation
+// the worker code performs (directory call, file open/read, CAS call) fail.
+func (h *harness) runDirect(cs *caseSpec, be backend, df digest.Function, faultAt int) (info runInfo) {
 	r := h.r
 	var f findings
 	counters := map[string]int{}
 	extra := map[string]any{"digest_function": df.GetEnumValue().String()}
+	if faultAt > 0 {
+		extra["fault_at"] = faultAt
+	}
+	driver := "direct/" + be.name()
 	defer func() {
-		h.judge(cs, "direct/"+be.name(), &f, extra)
+		if info.Triggered {
+			extra["faulted_call"] = info.Hit
+		}
+		h.judge(cs, driver, &f, extra)
 		for k, v := range counters {
 			r.Count(k, v)
 		}
@@ -343,23 +384,40 @@ func (h *harness) runDirect(cs *caseSpec, be backend, df digest.Function) {
 		return
 	}
 
-	plan := outkit.NewPlan(0, outkit.FaultNone, nil)
+	plan := outkit.NewPlan(faultAt, outkit.FaultErrDiscard, nil)
 	cas := outkit.NewStore("cas", plan, true)
-	root, ops, cleanup := be.open(h, cas)
+	root, ops, cleanup := be.open(h, cas, plan)
 	defer cleanup()
+	defer func() {
+		info.Counted = plan.Count()
+		info.Triggered, info.Hit = plan.Triggered()
+		info.Calls = plan.Log()
+	}()
 	if err := ops.materialize(cs.InputRoot); err != nil {
 		panic(fmt.Sprintf("harness: materialise input root: %v", err))
 	}
 	if err := oh.CreateParentDirectories(root); err != nil {
-		f.add("create-parent-directories failed", "CreateParentDirectories failed on a conflict-free input root: %v", err)
+		if trig, _ := plan.Triggered(); trig {
+			// The failure was reported: the action will not run.
+			counters["faulted-runs-stopped-before-the-action"]++
+		} else {
+			f.add("create-parent-directories failed", "CreateParentDirectories failed on a conflict-free input root: %v", err)
+		}
 		return
 	}
+	// CreateParentDirectories claimed success (whether or not a fault was
+	// swallowed): everything must be in place.
 	before, err := ops.snapshot()
 	if err != nil {
 		panic(err)
 	}
 	checkPreRun(cs, before, &f)
 
+	for _, loc := range cs.Removals {
+		if err := ops.remove(loc); err != nil {
+			panic(fmt.Sprintf("harness: remove %v: %v", loc, err))
+		}
+	}
 	if err := ops.materialize(cs.Final); err != nil {
 		panic(fmt.Sprintf("harness: materialise produced hierarchy: %v", err))
 	}
@@ -376,15 +434,76 @@ func (h *harness) runDirect(cs *caseSpec, be backend, df digest.Function) {
 	var ar remoteexecution.ActionResult
 	uerr := oh.UploadOutputs(context.Background(), root, cas, df, make(chan struct{}), &ar, cs.ForceTrees)
 	exp := cs.expected(df.GetEnumValue())
+	trig, _ := plan.Triggered()
 	if uerr != nil {
 		extra["upload_error"] = uerr.Error()
-		if len(exp.SpecialAt) == 0 {
-			f.add("upload-outputs unexpected-error", "UploadOutputs failed although every declared location holds a file, directory, symlink or nothing: %v", uerr)
-		} else {
+		switch {
+		case trig:
+			// The failure was reported. What is still listed must be
+			// declared and well formed; nothing more is demanded.
+			counters["faulted-uploads-reporting-an-error"]++
+			checkListed(cs, df, &ar, cas, &f)
+			return
+		case len(exp.SpecialAt) > 0:
 			counters["special-file-errors-observed"]++
+		case cs.ParentReplaced == "file":
+			counters["parent-replaced-errors-observed"]++
+		default:
+			f.add("upload-outputs unexpected-error", "UploadOutputs failed although every declared location holds a file, directory, symlink or nothing: %v", uerr)
+		}
+	} else if trig {
+		cs.Situations["fault-swallowed-result-still-checked-exactly"] = true
+	}
+	// No error reported: the result has to be exact, fault or not.
+	checkResult(cs, df, &ar, cas, &f, counters)
+	return
+}
+
+// checkListed is the oracle for a response that carries an error: every
+// listed output must be a declared path string and every listed Tree that is
+// in the CAS must be structurally well formed. Nothing is demanded about
+// completeness.
+func checkListed(cs *caseSpec, df digest.Function, ar *remoteexecution.ActionResult, cas *outkit.Store, f *findings) {
+	declared := map[string]bool{}
+	for _, p := range cs.OutputPaths {
+		declared[p] = true
+	}
+	lookup := func(d *remoteexecution.Digest) ([]byte, bool) {
+		dd, err := df.NewDigestFromProto(d)
+		if err != nil {
+			return nil, false
+		}
+		return cas.Bytes(dd)
+	}
+	for _, o := range ar.GetOutputFiles() {
+		if !declared[o.Path] {
+			f.add("output-file not-produced-or-not-declared", "error response lists output file %q, which was not declared", o.Path)
 		}
 	}
-	checkResult(cs, df, &ar, cas, &f, counters)
+	for _, o := range ar.GetOutputSymlinks() {
+		if !declared[o.Path] {
+			f.add("output-symlink not-produced-or-not-declared", "error response lists output symlink %q, which was not declared", o.Path)
+		}
+	}
+	for _, o := range ar.GetOutputDirectories() {
+		if !declared[o.Path] {
+			f.add("output-directory not-produced-or-not-declared", "error response lists output directory %q, which was not declared", o.Path)
+		}
+		if o.TreeDigest == nil {
+			continue
+		}
+		blob, ok := lookup(o.TreeDigest)
+		if !ok {
+			continue
+		}
+		_, _, problems := outkit.CheckTree(blob, df.GetEnumValue(), lookup)
+		for _, pr := range problems {
+			if pr.Rule == "file-blob-absent" {
+				continue // the write of that file may be what failed
+			}
+			f.add("tree-malformed rule="+pr.Rule, "output directory %q (error response): %s", o.Path, pr.Detail)
+		}
+	}
 }
 
 func checkPreRun(cs *caseSpec, before *outkit.Node, f *findings) {
@@ -403,7 +522,7 @@ func checkPreRun(cs *caseSpec, before *outkit.Node, f *findings) {
 
 // --- executor driver ------------------------------------------------------------
 
-func (h *harness) runExecutor(cs *caseSpec, useVirtual bool) {
+func (h *harness) runExecutor(cs *caseSpec, useVirtual bool, faultAt int) (info runInfo) {
 	r := h.r
 	df := digestFunctions[0]
 	var f findings
@@ -413,8 +532,14 @@ func (h *harness) runExecutor(cs *caseSpec, useVirtual bool) {
 	if useVirtual {
 		driver = "executor/virtual"
 	}
+	if faultAt > 0 {
+		extra["fault_at"] = faultAt
+	}
 	var stack *outkit.Stack
 	defer func() {
+		if info.Triggered {
+			extra["faulted_call"] = info.Hit
+		}
 		h.judge(cs, driver, &f, extra)
 		for k, v := range counters {
 			r.Count(k, v)
@@ -426,7 +551,12 @@ func (h *harness) runExecutor(cs *caseSpec, useVirtual bool) {
 	}
 	defer os.RemoveAll(buildRoot)
 
-	plan := outkit.NewPlan(0, outkit.FaultNone, nil)
+	plan := outkit.NewPlan(faultAt, outkit.FaultErrDiscard, nil)
+	defer func() {
+		info.Counted = plan.Count()
+		info.Triggered, info.Hit = plan.Triggered()
+		info.Calls = plan.Log()
+	}()
 	cas := outkit.NewStore("cas", plan, true)
 	ac := outkit.NewStore("ac", plan, false)
 	commandRaw, _ := proto.Marshal(cs.command())
@@ -454,6 +584,11 @@ func (h *harness) runExecutor(cs *caseSpec, useVirtual bool) {
 				panic(err)
 			}
 			checkPreRun(cs, before, &f)
+			for _, loc := range cs.Removals {
+				if err := outkit.RemoveVirtual(root, loc); err != nil {
+					panic(fmt.Sprintf("harness: remove %v: %v", loc, err))
+				}
+			}
 			if err := outkit.MaterializeVirtual(root, cs.Final); err != nil {
 				panic(fmt.Sprintf("harness: materialise produced hierarchy: %v", err))
 			}
@@ -476,6 +611,11 @@ func (h *harness) runExecutor(cs *caseSpec, useVirtual bool) {
 			panic(err)
 		}
 		checkPreRun(cs, before, &f)
+		for _, loc := range cs.Removals {
+			if err := os.RemoveAll(filepath.Join(append([]string{abs}, loc...)...)); err != nil {
+				panic(err)
+			}
+		}
 		if err := outkit.Materialize(abs, cs.Final); err != nil {
 			panic(fmt.Sprintf("harness: materialise produced hierarchy: %v", err))
 		}
@@ -490,7 +630,7 @@ func (h *harness) runExecutor(cs *caseSpec, useVirtual bool) {
 	stack, err = outkit.NewStack(outkit.StackConfig{
 		BuildRoot: buildRoot, Plan: plan, CAS: cas, AC: ac, BatchSize: 100, PutConcurrency: 2,
 		Runner: runner, Clock: vclock.New(1_700_000_000), Fetcher: fetcher, ForceTrees: cs.ForceTrees, WorkerName: "c10",
-		Virtual: useVirtual,
+		Virtual: useVirtual, DirectoryFaults: true,
 	})
 	if err != nil {
 		panic(err)
@@ -516,6 +656,17 @@ func (h *harness) runExecutor(cs *caseSpec, useVirtual bool) {
 		}
 		return
 	}
+	trig, _ := plan.Triggered()
+	if runner.Calls.Load() == 0 && trig && st.Code() != codes.OK {
+		// Setting up the action failed and the failure was reported: the
+		// command did not run, nothing may be listed.
+		counters["faulted-runs-stopped-before-the-action"]++
+		cs.Situations["fault-before-the-command-ran"] = true
+		if n := len(resp.Result.GetOutputFiles()) + len(resp.Result.GetOutputDirectories()) + len(resp.Result.GetOutputSymlinks()); n > 0 {
+			f.add("outputs-reported although-command-did-not-run", "%d outputs reported although the command never ran", n)
+		}
+		return
+	}
 	if runner.Calls.Load() != 1 {
 		f.add("valid-path rejected", "the runner was invoked %d times; response %s: %s", runner.Calls.Load(), st.Code(), st.Message())
 		return
@@ -525,19 +676,31 @@ func (h *harness) runExecutor(cs *caseSpec, useVirtual bool) {
 	}
 	exp := cs.expected(df.GetEnumValue())
 	if st.Code() != codes.OK {
-		if len(exp.SpecialAt) == 0 {
-			f.add("upload-outputs unexpected-error", "response %s: %s although every declared location holds a file, directory, symlink or nothing", st.Code(), st.Message())
-		} else {
+		switch {
+		case trig:
+			counters["faulted-uploads-reporting-an-error"]++
+			cs.Situations["fault-after-the-command-ran"] = true
+			checkListed(cs, df, resp.Result, cas, &f)
+			return
+		case len(exp.SpecialAt) > 0:
 			counters["special-file-errors-observed"]++
+		case cs.ParentReplaced == "file":
+			counters["parent-replaced-errors-observed"]++
+		default:
+			f.add("upload-outputs unexpected-error", "response %s: %s although every declared location holds a file, directory, symlink or nothing", st.Code(), st.Message())
 		}
 		// A failed response has its digests pruned by the flushing
 		// layer only when the flush failed; here the flush succeeded,
 		// so the outputs are still listed and can be compared.
+	} else if trig {
+		cs.Situations["fault-swallowed-result-still-checked-exactly"] = true
 	}
+	// OK status (or an error that is the action's own doing): exact.
 	checkResult(cs, df, resp.Result, cas, &f, counters)
 	if st.Code() == codes.OK && ac.Len() != 1 {
 		counters["ok-responses-not-cached"]++
 	}
+	return
 }
 
 // --- entry point ------------------------------------------------------------------
@@ -549,7 +712,8 @@ func TestCheck(t *testing.T) {
 	r.Assume("declared output paths are resolved lexically against the working directory (REv2: relative, '/' separated); symlink targets are compared up to redundant separators and '.' components")
 	r.Assume("a special file at a declared location may or may not fail the upload, but must not be listed; special files inside an output directory are omitted from its Tree")
 	r.Assume("output_files/output_directories of the Command are ignored when output_paths is used (only output_paths is implemented by this snapshot's NewOutputHierarchy)")
-	r.Assume("the action never replaces a parent directory of a declared output by a symlink (hostile in-root redirection is not generated)")
+	r.Assume("the action never replaces a parent directory of a declared output by a symlink (hostile in-root redirection is not generated); it may delete such a parent or put a regular file in its place, which may (file) or may not fail the upload")
+	r.Assume("fault enumeration: for a fixed subset of cases each operation of the clean run (build directory calls, file open/read, CAS FindMissing/Put) fails once with a non-ENOENT error; oracle: no error reported => parents exact and result exact; error reported => only declared paths listed and listed Trees structurally well formed")
 	for _, s := range []string{
 		"same-string-declared-twice", "aliasing-strings-for-one-location", "nested-declared-outputs",
 		"output-resolves-to-root", "identical-subdirectories-in-tree", "escaping-or-absolute-output-path",
@@ -557,6 +721,14 @@ func TestCheck(t *testing.T) {
 		"special-file-inside-output-directory", "output-is-symlink", "deep-directory", "wide-directory",
 		"tree-with-children-checked", "directory-messages-checked", "tree-depth-10-or-more",
 		"driver:direct/naive", "driver:direct/virtual", "driver:executor/naive", "driver:executor/virtual",
+		"parent-directory-replaced-by-file", "parent-directory-removed-by-action",
+		"driver-with-faults:direct/naive", "driver-with-faults:direct/virtual",
+		"driver-with-faults:executor/naive", "driver-with-faults:executor/virtual",
+		"fault:dir-Mkdir", "fault:dir-EnterParentPopulatableDirectory", "fault:dir-EnterUploadableDirectory",
+		"fault:dir-Lstat", "fault:dir-ReadDir", "fault:dir-Readlink", "fault:dir-UploadFile",
+		"fault:dir-EnterBuildDirectory", "fault:dir-MergeDirectoryContents", "fault:dir-RemoveAll",
+		"fault:file-OpenRead", "fault:file-ReadAt", "fault:file-Len", "fault:cas-Put", "fault:cas-FindMissing",
+		"fault-before-the-command-ran", "fault-after-the-command-ran",
 	} {
 		if r.ReplayFile() == "" {
 			r.Floor(s, 10)
@@ -569,8 +741,9 @@ func TestCheck(t *testing.T) {
 	defer os.RemoveAll(tmp)
 	h := &harness{r: r, tmp: tmp}
 
-	n := r.Pick(2000, 20000)
+	n := r.Pick(1600, 20000)
 	const workers = 4
+	const maxFaultPositions = 16
 	first := 0
 	if rf := r.ReplayFile(); rf != "" {
 		// Re-run exactly the recorded case.
@@ -605,17 +778,66 @@ func TestCheck(t *testing.T) {
 		}
 		cs := genCase(rng, i, true)
 		r.Case("case %d driver=%s wd=%q outputs=%q format=%s", i, driver, cs.WorkingDirectory, cs.OutputPaths, cs.Format)
+		df := digestFunctions[i%len(digestFunctions)]
+		run := func(faultAt int) runInfo {
+			switch driver {
+			case "direct/naive":
+				return h.runDirect(cs, naiveBackend{}, df, faultAt)
+			case "direct/virtual":
+				return h.runDirect(cs, virtualBackend{}, df, faultAt)
+			case "executor/naive":
+				return h.runExecutor(cs, false, faultAt)
+			default:
+				return h.runExecutor(cs, true, faultAt)
+			}
+		}
+		base := run(0)
+		r.Situation("driver:" + driver)
+		// Fault enumeration: for a fixed subset of the cases every
+		// operation the worker code performed in the clean run (directory
+		// calls, file opens/reads, CAS calls) fails once.
+		enumerate := false
 		switch driver {
 		case "direct/naive":
-			h.runDirect(cs, naiveBackend{}, digestFunctions[i%len(digestFunctions)])
+			enumerate = i%40 == 0
 		case "direct/virtual":
-			h.runDirect(cs, virtualBackend{}, digestFunctions[i%len(digestFunctions)])
+			enumerate = i%20 == 3
 		case "executor/naive":
-			h.runExecutor(cs, false)
+			enumerate = i%50 == 4
 		case "executor/virtual":
-			h.runExecutor(cs, true)
+			enumerate = i%50 == 7
 		}
-		r.Situation("driver:" + driver)
+		if enumerate && len(cs.Invalid) == 0 && base.Counted > 0 {
+			var positions, common []int
+			for _, c := range base.Calls {
+				if c.Seq == 0 {
+					continue
+				}
+				if rareOps[c.Store+"-"+c.Op] {
+					positions = append(positions, c.Seq)
+				} else {
+					common = append(common, c.Seq)
+				}
+			}
+			rng.Shuffle(len(common), func(a, b int) { common[a], common[b] = common[b], common[a] })
+			for _, k := range common {
+				if len(positions) >= maxFaultPositions {
+					break
+				}
+				positions = append(positions, k)
+			}
+			sort.Ints(positions)
+			for _, k := range positions {
+				r.Case("case %d driver=%s fault at operation %d/%d", i, driver, k, base.Counted)
+				info := run(k)
+				if info.Triggered {
+					r.Situation(faultSituation(info.Hit))
+					r.Situation("driver-with-faults:" + driver)
+					r.Hash(ev.HashOf(driver, i, "fault", info.Hit.Store, info.Hit.Op, k), true)
+				}
+			}
+			r.Count("fault-enumerated-cases", 1)
+		}
 		names := make([]string, 0, len(cs.Situations))
 		for s := range cs.Situations {
 			names = append(names, s)
